@@ -160,6 +160,39 @@ fn symptom(ctx: &mut Ctx, t: &str, style: u8, fol: usize) -> Option<String> {
     None
 }
 
+fn shrink(ctx: &mut Ctx, t: &str, style: u8, fol: usize, sy: &str, preserve: bool) -> (String, usize, String) {
+    let (mut mt, mut mf, mut ms) = (t.to_string(), fol, sy.to_string());
+    if mf != 0 {
+        if let Some(s2) = symptom(ctx, &mt, style, 0) {
+            if !preserve || s2 == ms {
+                mf = 0;
+                ms = s2;
+            }
+        }
+    }
+    let mut changed = true;
+    while changed && !mt.is_empty() {
+        changed = false;
+        let cs: Vec<char> = mt.chars().collect();
+        for i in 0..cs.len() {
+            let t2: String = cs.iter().enumerate().filter(|(j, _)| *j != i).map(|(_, c)| *c).collect();
+            if !style_ok(&t2, style) {
+                continue;
+            }
+            if let Some(s2) = symptom(ctx, &t2, style, mf) {
+                if preserve && s2 != ms {
+                    continue;
+                }
+                mt = t2;
+                ms = s2;
+                changed = true;
+                break;
+            }
+        }
+    }
+    (mt, mf, ms)
+}
+
 fn text_of(mut k: u64, len: usize, alpha: &[char]) -> String {
     let mut s = String::new();
     for _ in 0..len {
@@ -243,30 +276,14 @@ pub fn main(args: &[String]) {
                         Some(s) => s,
                     };
                     failing += 1;
-                    // shrink: first try without the follower, then drop characters while it still fails
-                    let (mut mt, mut mf, mut ms) = (t.clone(), fol, sy);
-                    if mf != 0 {
-                        if let Some(s2) = symptom(&mut ctx, &mt, style, 0) {
-                            mf = 0;
-                            ms = s2;
-                        }
-                    }
-                    let mut changed = true;
-                    while changed && !mt.is_empty() {
-                        changed = false;
-                        let cs: Vec<char> = mt.chars().collect();
-                        for i in 0..cs.len() {
-                            let t2: String = cs.iter().enumerate().filter(|(j, _)| *j != i).map(|(_, c)| *c).collect();
-                            if !style_ok(&t2, style) {
-                                continue;
-                            }
-                            if let Some(s2) = symptom(&mut ctx, &t2, style, mf) {
-                                mt = t2;
-                                ms = s2;
-                                changed = true;
-                                break;
-                            }
-                        }
+                    // shrink: first try without the follower, then drop characters while it still fails; and once more
+                    // while it still fails *in the same way* (a free shrink may walk to a smaller text that fails for
+                    // another reason)
+                    let (pt, pf, ps) = shrink(&mut ctx, &t, style, fol, &sy, true);
+                    let (mt, mf, ms) = shrink(&mut ctx, &t, style, fol, &sy, false);
+                    if (pt.as_str(), pf) != (mt.as_str(), mf) {
+                        let e = minimal.entry((style, pt, pf)).or_insert((0, ps, t.clone()));
+                        e.0 += 1;
                     }
                     let e = minimal.entry((style, mt, mf)).or_insert((0, ms, t.clone()));
                     e.0 += 1;
